@@ -94,6 +94,22 @@ func (r *run) observe() *obs {
 	return o
 }
 
+// arbiterCopyMask: the vote maps inside the Producer copies of the arbiter lists.
+var arbiterCopyMask = func() map[string]bool {
+	m := map[string]bool{}
+	for _, pre := range []string{"", "Checkpoint.", "Frame."} {
+		_ = pre
+	}
+	for _, l := range []string{"LastArbitrators", "CurrentArbitrators", "CurrentCandidates", "nextArbitrators", "nextCandidates",
+		"CurrentCRCArbitersMap", "nextCRCArbitersMap", "nextCRCArbiters",
+		"NextArbitrators", "NextCandidates", "NextCRCArbitersMap", "NextCRCArbiters", "CurrentOnDutyCRCArbitersMap"} {
+		for _, f := range []string{"detailedDPoSV2Votes", "expiredNFTVotes"} {
+			m[l+"[*].producer."+f] = true
+		}
+	}
+	return m
+}()
+
 type view struct {
 	name string
 	a, b *canon.Node
@@ -136,7 +152,23 @@ func (r *run) compare(clause string, h uint32, got, want *obs) (clean, ok bool) 
 		}
 		// m[k] = 0 (or an empty inner map) left behind by a "+= / -=" rollback
 		// where the direct build has no entry is one finding, whatever the map
-		if lenient := (&canon.Differ{ZeroEntryAbsent: true}).First(v.a, v.b); lenient == nil {
+		lenient := (&canon.Differ{ZeroEntryAbsent: true}).First(v.a, v.b)
+		if lenient != nil && r.cfg.Side == DPoS {
+			// dposArbiter keeps a shallow copy of the Producer taken when the
+			// arbiter list was built: its vote maps are shared with the live
+			// producer until that one replaces them, so their content depends on
+			// the order of later operations (only info/owner keys are read from
+			// the copy).  One finding whatever the list.
+			if masked := (&canon.Differ{ZeroEntryAbsent: true, Mask: arbiterCopyMask}).First(v.a, v.b); masked == nil {
+				detail := fmt.Sprintf("height %d: %s%s = %s, direct build has %s", h, v.name, lenient.Path, lenient.A, lenient.B)
+				if !vk.Report(r.t, r.cfg.Prop+":"+clause+":arbiter-producer-copy-shares-vote-maps", detail, r.render()) {
+					return false, false
+				}
+				r.known = true
+				return true, true
+			}
+		}
+		if lenient == nil {
 			detail := fmt.Sprintf("height %d: %s%s = %s, direct build has %s", h, v.name, df.Path, df.A, df.B)
 			if !vk.Report(r.t, r.cfg.Prop+":"+clause+":zero-valued-map-entry-left-behind", detail, r.render()) {
 				return false, false
